@@ -10,7 +10,7 @@ use std::str::FromStr;
 
 /// material produced by an encrypting op, kept for the decrypting op that refers to it
 #[derive(Clone, Default)]
-pub struct Sealed { pub ct: Vec<u8>, pub tag: Vec<u8>, pub nonce: Vec<u8>, pub aad: Vec<u8>, pub msg: Vec<u8> }
+pub struct Sealed { pub ct: Vec<u8>, pub tag: Vec<u8>, pub nonce: Vec<u8>, pub aad: Vec<u8>, pub msg: Vec<u8>, pub alg: String }
 
 pub struct BufArg { _own: Vec<u8>, pub buf: ByteBuf, pub eff: Vec<u8>, pub neg: bool }
 
@@ -197,8 +197,10 @@ pub fn step_key(run: &mut Run, i: usize, op: &Value) -> Value {
             if ret == 0 && !k.0.is_null() {
                 if let Some(Ok(t)) = &twin { compare_key(run, i, op, &name, k.0 as usize, t); }
                 if name == "key_unwrap" && op["mut"].as_str().unwrap_or("").is_empty() {
-                    // round trip: the unwrapped key is the key that was wrapped
-                    if let (Some(s), Ok(g)) = (&sealed, secret_of(k.0 as usize)) { if g != s.msg { run.fail(i, op, "key_unwrap:roundtrip:secret-differs".into(), json!({})); } }
+                    // round trip: the unwrapped key is the key that was wrapped (claimed when it is unwrapped as the type it had;
+                    // a key type may normalise foreign bytes)
+                    let same_alg = match (&sealed, &twin) { (Some(s), Some(Ok(t))) => s.alg == t.algorithm().as_str(), _ => false };
+                    if let (true, Some(s), Ok(g)) = (same_alg, &sealed, secret_of(k.0 as usize)) { if g != s.msg { run.fail(i, op, "key_unwrap:roundtrip:secret-differs".into(), json!({})); } }
                 }
                 keep_key(run, i, k.0 as usize, twin.and_then(|t| t.ok()));
             }
@@ -261,7 +263,8 @@ pub fn step_key(run: &mut Run, i: usize, op: &Value) -> Value {
                                 if c != 0 || take_buf(sb) != msg { run.fail(i, op, "aead_encrypt:roundtrip:rust-ciphertext-rejected-by-ffi".into(), json!({"code": code_name(c)})); }
                             }
                         }
-                        run.sealed.insert(i, Sealed { ct, tag, nonce: n2, aad, msg });
+                        let walg = if wrap { run.twin_keys.get(&keys.get(1).copied().unwrap_or(0)).map(|k| k.algorithm().as_str().to_string()).unwrap_or_default() } else { String::new() };
+                        run.sealed.insert(i, Sealed { ct, tag, nonce: n2, aad, msg, alg: walg });
                     }
                 }
                 jsync(ret, json!({"tag_pos": tp, "nonce_pos": np, "len": blen}))
@@ -331,7 +334,7 @@ pub fn step_key(run: &mut Run, i: usize, op: &Value) -> Value {
                     }
                 }
                 let l = got.len();
-                run.sealed.insert(i, Sealed { ct: got, tag: vec![], nonce, aad: vec![], msg });
+                run.sealed.insert(i, Sealed { ct: got, tag: vec![], nonce, aad: vec![], msg, alg: String::new() });
                 jsync(ret, json!({"len": l}))
             }
         }
